@@ -62,6 +62,7 @@ def run(ctx):
         "bundling guard and the checkpoint reset dominate the deferred pause, which is requested with defer=False on the flag's "
         "true branch; D3 in the message loop a suspension point dominates pulling the next message, so nothing runs between the "
         "pause request and the pause. Not decided: interaction with clear_checkpoint (observation O-1).")
+    q.per_call_reset(ctx, rm, "C09.D1-flag-cleared-per-call", ["_deferred_pause_requested"])
     # D1
     q.check_writers(ctx, "C09.D1-flag-writers", repo, "_deferred_pause_requested",
                     {f"{CLS}.__init__": "initially False", f"{CLS}._clear_call_cache": "cleared when the next plan starts",
